@@ -64,10 +64,8 @@ Proof.
   rewrite HV. cbn [bind negb].
   destruct (e_len e - 8 >? SCRATCH) eqn:Big; auto.
   rewrite I2. destruct (negb (known_type (e_ty e))) eqn:Kn; auto.
-  rewrite add32_ok by (unfold in_i32, two31; lia). cbn [bind].
-  replace (e_pos e mod cap + 8 + (e_len e - 8) >? buf_len cap) with false
+  replace ((e_len e - 8 <? 0) || (e_pos e mod cap + 8 + (e_len e - 8) >? buf_len cap)) with false
     by (unfold buf_len, BC_TRAILER_LENGTH; lia).
-  replace (e_len e - 8 <? 0) with false by lia.
   rewrite Cu, (do_validate_ok m w mm (e_pos e) T) by (auto; lia). cbn [bind].
   replace (e_pos e + cap >? T) with true by lia.
   replace (Z.to_nat (e_len e - 8)) with (length (e_bs e)) by lia. rewrite I3. reflexivity.
